@@ -86,6 +86,11 @@ fn scen(spec: RunSpec) -> ScenFut {
         let schema_variant = if sim::w_bool(50) { 0 } else { 4 };
         for k in 0..n_chunks {
             let nrows = sim::w_range(1, 4) as usize;
+            // one chunk in twelve is read back in two record batches (more than 8192 rows): back-fill targets are per batch
+            let nrows = if sim::w(12) == 11 { 8192 + nrows } else { nrows };
+            if nrows > 8192 {
+                sim::probe("old-shard-chunk-with-two-record-batches");
+            }
             // a quarter of the chunks carry extreme values (both zeros, NaN, infinities, NULL, integer extremes)
             let extreme = sim::w(4) == 3;
             let rows: Vec<Row> = (0..nrows)
